@@ -2,6 +2,7 @@ package c46
 
 import (
 	"fmt"
+	"math"
 	"reflect"
 	"strconv"
 	"strings"
@@ -201,6 +202,8 @@ func structPopulated(v any) (map[int32]bool, bool) {
 			out[n] = fv.Len() > 0
 		case reflect.Struct:
 			return nil, false // non-nullable message field: no notion of "unset" in the struct
+		case reflect.Float32, reflect.Float64:
+			out[n] = math.Float64bits(fv.Float()) != 0 // -0.0 is a value
 		default:
 			out[n] = !fv.IsZero()
 		}
